@@ -549,11 +549,20 @@ func protoOracle(ops, impl []string, which string) string {
 	prevAck := map[string]int{}   // "leader>follower" -> acknowledged offset in the previous state
 	prevTerm := map[int]int{}     // node -> term in the previous state
 	preLog := map[int][]string{}  // node -> its log right before the last election / attach request
+	// nodes that have carried out a Truncate request the script made up itself (p.trunc: not what any leader
+	// sent): what such a node had acknowledged may be gone, by the script's doing
+	madeUpTrunc := map[int]bool{}
 	for i, o := range ops {
 		if i >= len(impl) {
 			break
 		}
 		out := impl[i]
+		if strings.HasPrefix(o, "p.trunc ") && strings.HasPrefix(strings.TrimPrefix(out, "~"), "head=") {
+			if tf := strings.Fields(o); len(tf) > 1 {
+				tn, _ := strconv.Atoi(tf[1])
+				madeUpTrunc[tn] = true
+			}
+		}
 		dbIds, haveDB := []string(nil), false
 		if j := strings.Index(out, " ~"); j >= 0 {
 			ann := out[j+2:]
@@ -580,7 +589,7 @@ func protoOracle(ops, impl []string, which string) string {
 						continue
 					}
 					for fo, ack := range s.cursors {
-						if fo >= len(st) || st[fo].term != s.term || st[fo].ctrl != "F" {
+						if fo >= len(st) || st[fo].term != s.term || st[fo].ctrl != "F" || madeUpTrunc[fo] {
 							continue
 						}
 						for k := 0; k <= ack && k < len(s.log); k++ {
@@ -838,7 +847,7 @@ func protoOracle(ops, impl []string, which string) string {
 				}
 				// C03: a follower that acknowledged offset o holds the leader's entries up to o
 				for fo, ack := range s.cursors {
-					if fo >= len(st) || st[fo].term != s.term || !want("C03") {
+					if fo >= len(st) || st[fo].term != s.term || !want("C03") || madeUpTrunc[fo] {
 						continue
 					}
 					for k := 0; k <= ack && k < len(s.log); k++ {
